@@ -123,7 +123,11 @@ pub fn gen_members(r: &mut Rng, cfg: &TreeCfg, depth: usize) -> Map<String, Valu
     let n = if depth <= 1 { r.range(1, cfg.max_fanout + 2) } else if r.chance(1, 8) { 0 } else { r.range(1, cfg.max_fanout) };
     let mut m = Map::new();
     for _ in 0..n {
-        let k = gen_name(r, cfg);
+        let mut k = gen_name(r, cfg);
+        // below the top level the JWT-registered names are ordinary member names (C05: only TOP-LEVEL iss/iat/exp stay visible)
+        if depth >= 2 && r.chance(1, 12) {
+            k = r.pick(&["iss", "iat", "exp", "nbf", "sub", "aud", "cnf", "jti"]).to_string();
+        }
         if m.contains_key(&k) {
             continue;
         }
